@@ -74,9 +74,10 @@ Qed.
 (* a two-level tree ('10',1), ('20',1) *)
 Definition ex_tree : lvl Z := Node [10; 20] [Leaf [1]; Leaf [1]].
 Lemma ex_tree_guard :
-  lvl_wf Z ex_tree /\ on_last_edge Z Z.eqb ex_tree [20; 2] = true /\
+  lvl_wf Z ex_tree /\
   M_lappend Z Z.eqb ex_tree [20; 2] = Ok (Node [10; 20] [Leaf [1]; Leaf [1; 2]]) /\
-  on_last_edge Z Z.eqb ex_tree [30; 1] = true /\ on_last_edge Z Z.eqb ex_tree [10; 2] = false.
+  M_lappend Z Z.eqb ex_tree [30; 1] = Ok (Node [10; 20; 30] [Leaf [1]; Leaf [1]; Leaf [1]]) /\
+  is_ok (M_lappend Z Z.eqb ex_tree [10; 2]) = false /\ is_ok (M_lappend Z Z.eqb ex_tree [20; 1]) = false.
 Proof.
   split; [|repeat split; reflexivity].
   constructor; [reflexivity|]. repeat constructor.
